@@ -819,8 +819,12 @@ class First(query_compile.EvalAggregator):
         store[self.handle] = None
 
     def update(self, store, context):
+        # Evaluate the operand for every row, also once the first value
+        # is known: evaluating a column may have effects that later
+        # rows depend upon. The running balance advances only when the
+        # ``balance`` column is evaluated.
+        value = self.operands[0](context)
         if store[self.handle] is None:
-            value = self.operands[0](context)
             store[self.handle] = value
 
 
